@@ -15,6 +15,11 @@ CHECKS = {
    technique="property-based testing (proptest): generated edit scripts vs content-addressed reference model, through the real binary",
    text="Generated search (proptest, sharded, shrinking) over file shapes x edit scripts x actors, executed through the real git-ai binary and real git; every line a commit adds is judged against a content-addressed reference model on both the note (independent v3 parser) and `git-ai blame --json`. Exploration is the right level: the property quantifies over an unbounded input space and the implementation is a process-level pipeline.",
    note="Trusts real git's `diff -U0` (clean config) as the definition of 'lines added by the commit', the harness's own note/diff parsers, and the agent protocol of DESIGN §1.3. Cross-commit whitespace re-touches and filler lines are judged by the safety rule only (counted in evidence)."),
+ "C17": dict(
+   level="exploration", design="DESIGN.md §2 C17",
+   technique="property-based testing (proptest, in-process): round-trip + independent grammar recogniser + remap metamorphic relation",
+   text="In-process generated search over AuthorshipLog values (special and arbitrary path strings, hashes, range multisets, prompt records) and arbitrary parser input. Oracles: serialize->deserialize equality, an independent recogniser of the published v3 grammar applied to the serialised text, parser totality, and the textual base-commit remap (verification export) composed with parse. Exploration level; 60k cases per quick run, 1.5M per thorough run.",
+   note="Links /repo as a path dependency with the verif-hooks feature (private remap helper re-exported). Domain = UTF-8 paths without NUL, 7/16-hex hashes, non-empty entries. Paths containing a newline are a recorded finding (F6n)."),
 }
 
 NOT_YET = "check not built yet (work in progress; see DESIGN.md section 2 for the plan)"
